@@ -146,7 +146,7 @@ def handle (stream : String) (args : List String) : String :=
     | some o, some a =>
       let secs := (o.media.zip a.sections)
       let bit (f : Media → Media → Bool) := b01 (secs.all (fun p => f p.1 p.2))
-      s!"{b01 (validAnswer o a)} n{b01 (o.media.length = a.sections.length)} al{bit secAligned} pt{bit secPtsOk} rx{bit secRtxOk} ex{bit secExtOk} mx{bit secMuxOk} di{bit secDirOk} su{bit secSetupOk} bu{b01 (bundleOk o.session.attrs a)}"
+      s!"{b01 (validAnswer o a)} n{b01 (o.media.length = a.sections.length)} al{bit secAligned} pt{bit secPtsOk} rx{bit secRtxOk} ex{bit secExtOk} mx{bit secMuxOk} di{bit secDirOk} su{bit (secSetupOkS o.session.attrs)} bu{b01 (bundleOk o.session.attrs a)} cb{bit secBindOk}"
     | _, _ => "bad-args"
   | "prim", [op, text] =>
     -- the `str` primitives every model function is built from (text = `.` ++ coded string)
